@@ -1,6 +1,7 @@
 //! Shared proptest strategies (all by construction, shrinking toward the first alternative).
 
 pub mod expr;
+pub mod typed;
 
 use crate::model::{F, MV};
 use proptest::prelude::*;
